@@ -90,10 +90,14 @@ func vpExpiryScript(mirrorOnly bool) {
 	for i := 0; i < steps; i++ {
 		entry := vpChoose("entry", 2)
 		dm := vpDMap(cl.members[entry], "d")
+		if i > 0 {
+			// a solver-chosen amount of time (possibly none) passes before every operation but the first
+			vpSleepMs(vpRange("wait", 0, 70))
+		}
 		now := vpNowMs()
 		reg.vpClear(now)
 		vis := reg.visible(now)
-		switch vpChoose("op", 8) {
+		switch vpChoose("op", 6) {
 		case 0: // Put with any option combination
 			v := vpVals[vpChoose("val", nvals)]
 			pc := &PutConfig{}
@@ -203,14 +207,13 @@ func vpExpiryScript(mirrorOnly bool) {
 				}
 				*reg = vpReg{present: true, val: vpIntBytes(base), deadline: keep}
 			}
-		case 6, 7: // time passes
-			vpSleepMs(vpRange("sleep", 1, 70))
 		}
 		if replicas == 2 && mirrorOnly {
 			vpCheckMirror(cl, "d", "k")
 		}
 	}
-	// final read-back through both members
+	// final read-back through both members, after another solver-chosen wait
+	vpSleepMs(vpRange("wait", 0, 70))
 	now := vpNowMs()
 	reg.vpClear(now)
 	for m := 0; m < 2; m++ {
